@@ -251,8 +251,10 @@ SV(gx, x, gy, y, asm, tol) ==
     IF IsEmptyish(gx, x) /\ IsEmptyish(gy, y) /\ (x.k = "nil" \/ y.k = "nil" \/ x.k = y.k) THEN TRUE ELSE
     CASE x.k = "nil" -> y.k = "nil"
       [] x.k = "bool" -> y.k = "bool" /\ y.v = x.v
-      [] x.k = "int" -> y.k \in {"int", "bigint"} /\ (y.v = x.v \/ "long-wrap" \in tol)
-      [] x.k = "bigint" -> y.k \in {"int", "bigint"} /\ (y.v = x.v \/ "long-wrap" \in tol)
+      \* "long-wrap": only an integer outside the int64 range (the harness gives it w64 = its value modulo 2^64,
+      \* signed), and only that value
+      [] x.k = "int" -> y.k \in {"int", "bigint"} /\ (y.v = x.v \/ ("long-wrap" \in tol /\ Has(x, "w64") /\ y.v = x.w64))
+      [] x.k = "bigint" -> y.k \in {"int", "bigint"} /\ (y.v = x.v \/ ("long-wrap" \in tol /\ Has(x, "w64") /\ y.v = x.w64))
       [] x.k = "real" -> y.k = "real" /\ SameReal(x, y)
       [] x.k = "complex" ->
             \/ y.k = "complex" /\ SameReal(x.re, y.re)
@@ -264,11 +266,14 @@ SV(gx, x, gy, y, asm, tol) ==
       [] x.k = "str" -> \/ y.k = "str" /\ y.s = x.s
                         \/ ~x.valid /\ y.k = "bytes" /\ y.s = x.s                                \* through interface{}
       [] x.k = "bytes" -> y.k = "bytes" /\ y.s = x.s
-      [] x.k = "bigfloat" -> \/ y.k = "bigfloat" /\ (y.v = x.v \/ "bigfloat-precision" \in tol)
-                             \/ y.k = "real" /\ "bigfloat-precision" \in tol
+      \* "bigfloat-precision": only the value its shortest decimal text has when read with a 64-bit mantissa
+      \* (p64) resp. as a float64 (r64), both computed by the harness
+      [] x.k = "bigfloat" -> \/ y.k = "bigfloat" /\ (y.v = x.v \/ ("bigfloat-precision" \in tol /\ Has(x, "p64") /\ y.v = x.p64))
+                             \/ y.k = "real" /\ "bigfloat-precision" \in tol /\ y.w = 64 /\ Has(x, "r64") /\ y.cls = "fin" /\ y.b = x.r64
                              \/ y.k = "real" /\ y.w = 64 /\ Has(x, "b64") /\ y.cls = "fin" /\ y.b = x.b64   \* through interface{}
       [] x.k = "bigrat" -> \/ y.k = "bigrat" /\ y.num = x.num /\ y.den = x.den
-                           \/ x.den = "1" /\ y.k \in {"int", "bigint"} /\ (y.v = x.num \/ "long-wrap" \in tol)   \* through interface{}
+                           \/ x.den = "1" /\ y.k \in {"int", "bigint"}
+                              /\ (y.v = x.num \/ ("long-wrap" \in tol /\ Has(x, "w64") /\ y.v = x.w64))             \* through interface{}
                            \/ x.den # "1" /\ y.k = "str" /\ y.s = x.txt
       [] x.k = "time" -> y.k = "time" /\ y.instant = x.instant /\ y.utc = x.utc /\ (~x.utc => y.local)
       [] x.k = "guid" -> y.k = "guid" /\ y.v = x.v
@@ -310,12 +315,19 @@ C03OK(e) ==
        /\ WireMatch(e.in, p, 1)
 
 \* C01: the typed round trip.  `tol` names deviations that are tolerated (the empty set: none)
+\* "Deeply equal" includes the dynamic type of what an interface{} position holds.  The projection makes
+\* pointers transparent, so the harness lists, for every interface{} position of the original that holds a
+\* value of the type the decoder's defaults give back for its tag (pointer to a registered struct,
+\* []interface{}, map[interface{}]interface{}, int, float64), the type found at the same place of the
+\* decoded value: e.itypes = << [path, want, got] >>.
+ITypesOK(e) == ~Has(e, "itypes") \/ \A i \in DOMAIN e.itypes : e.itypes[i].got = e.itypes[i].want
+
 C01Tol(e, tol) ==
     /\ EncodedOK(e)
     /\ e.decpanic = "none" /\ e.outfault = "none"
     /\ IF e.in.root.k = "error"
        THEN e.decerr = e.errmsg          \* an encoded error is reported through the decoder's error
-       ELSE e.decerr = "none" /\ SameValue(e.in, e.out, tol)
+       ELSE e.decerr = "none" /\ SameValue(e.in, e.out, tol) /\ ITypesOK(e)
 C01OK(e) == C01Tol(e, {})
 
 \* why a round trip is rejected: the first named deviation that would explain it, for the known-findings
@@ -326,6 +338,7 @@ C01Why(e) ==
     ELSE IF e.decpanic # "none" THEN "decpanic"
     ELSE IF e.outfault # "none" THEN "wild-pointer"
     ELSE IF e.decerr # "none" /\ e.in.root.k # "error" THEN "decerr"
+    ELSE IF ~ITypesOK(e) THEN "an interface{} position came back holding another Go type"
     ELSE IF C01Tol(e, {"bigfloat-precision"}) THEN "bigfloat-precision"
     ELSE IF C01Tol(e, {"long-wrap"}) THEN "long-wrap"
     ELSE IF C01Tol(e, {"bigfloat-precision", "long-wrap"}) THEN "bigfloat-precision+long-wrap"
